@@ -41,6 +41,19 @@ func runC20Lin(c *fw.Ctx, item *int64) {
 			c06Param{Engine: eng, Pre: pre, Close: closing, Threads: [][]bt.Op{{{Kind: "GetTable", Table: tblT}}, {mod(bt.Mod{ID: "h", Op: "create", GC: mv(2)})}, {mod(bt.Mod{ID: "g", Op: "drop"})}}},
 		)
 	}
+	// the emulator is stopped (Server.Close) while a request is in flight: whatever the order, both finish (btree engine:
+	// its rows survive Close, so the closing observations still see the outcome of the request)
+	shut := bt.Op{Kind: "Shutdown"}
+	for _, th := range [][][]bt.Op{
+		{{shut}, {mod(bt.Mod{ID: "g", Op: "drop"})}},
+		{{shut}, {mod(bt.Mod{ID: "h", Op: "create", GC: mv(2)})}, {read(tblT)}},
+		{{shut}, {put(tblT, "a", "f", "w"), read(tblT)}},
+		{{shut}, {createU, put(tblU, "a", "f", "1")}},
+		{{shut}, {{Kind: "DeleteTable", Table: tblT}}},
+		{{shut}, {{Kind: "DropRowRange", Table: tblT, All: true}}},
+	} {
+		scen = append(scen, c06Param{Engine: "btree", Pre: pre, Close: closing, Threads: th})
+	}
 	// the same kind of mix on the disk engine, followed by a stop and a start: what was served at the end must be what
 	// is persisted (a schema change that writes the definition of a table another request has just deleted, a delete
 	// that removes the definition a re-create has just written)
